@@ -293,7 +293,7 @@ pub fn run(ctx: &Ctx) -> i32 {
     }
 
     // rpm_evr_compare on strings, against an independent split + the port
-    let evr_strings = all_strings(&["0", "1", "a", ":", "-", "."], if ctx.thorough() { 5 } else { 4 });
+    let evr_strings = all_strings(&["0", "1", "a", ":", "-", "."], if ctx.thorough() { 6 } else { 5 });
     fn split(s: &str) -> (&str, &str, &str) {
         let (e, vr) = match s.find(':') {
             Some(i) => (&s[..i], &s[i + 1..]),
